@@ -725,6 +725,14 @@ class World:
                 args.append(self.mk_duration(act[3]))
             it.ex.event(ev="action_start", kind=kind, target=act[1], msg=self.describe(msg.fields[0]), by=hook.actor_name if hook else None)
             return self.call_method(it, "ActorRef", meth, args)
+        if kind == "ask_then_panic":
+            # an ask to a peer is in flight (pinned across a join!/select!) when the same hook panics
+            fut = self.start_action(it, ("ask", act[1], act[2]), hook)
+            cx = Opaque("Context", "hook")
+            r = self.poll_future(it, fut, cx)
+            hook.cur = fut            # dropped by HookFuture.drop during the unwinding
+            it.ex.event(ev="scripted_panic_mid_ask", by=hook.actor_name, target=act[1])
+            raise RustPanic("scripted panic in %s while its ask to %s is in flight" % (hook.actor_name, act[1]))
         if kind == "kill":
             target = self.actors[act[1]]
             r = self.call_method(it, "ActorRef", "kill", [Ref(target["ref_cell"], (), False)])
@@ -763,14 +771,14 @@ class World:
     # ---- statics / consts ----------------------------------------------------------------
     def static_init(self, it, name):
         short = name.split("::")[-1]
-        b = self.prog.statics.get(short)
+        b = self.prog.statics.get(name) or self.prog.statics.get(short)
         if b is None:
             raise Unsupported("static " + name)
         fr = Frame(b)
         r = it.run(fr, None)
         return r[1]
 
-    def const_path(self, it, path, ty):
+    def const_path(self, it, path, ty, frame=None):
         s = strip_generics(path)
         last = s.split("::")[-1]
         b = self.prog.statics.get(last)
@@ -793,9 +801,20 @@ class World:
         if s.endswith("SystemTime::UNIX_EPOCH") or s.endswith("UNIX_EPOCH"):
             return Agg("struct", "SystemTime", [0])
         if last == "BRANCHES" and "Out" in self.prog.enums:
-            # tokio::select!'s `const BRANCHES: u32 = count!(..)` (CTFE constant, not dumped):
-            # the number of branches = number of Out variants minus `Disabled`
-            return IntV(len(self.prog.enums["Out"]) - 1, 32)
+            # tokio::select!'s `const BRANCHES: u32 = count!(..)` (CTFE constant, not dumped): the
+            # number of branches of *this* select = number of type arguments of the `Out<..>` enum
+            # used in the poll_fn closure that reads the constant
+            n = None
+            if frame is not None:
+                for blk in frame.body.blocks.values():
+                    for st in blk.stmts:
+                        if st.kind == "assign" and st.rv.kind == "adt":
+                            mm = re.search(r"Out::<(.*)>::\w+$", st.rv.a, re.S)
+                            if mm and "__tokio_select_util" in st.rv.a:
+                                n = len(split_top(mm.group(1)))
+            if n is None:
+                n = len(self.prog.enums["Out"]) - 1
+            return IntV(n, 32)
         if re.match(r"^[A-Z][A-Z0-9_]+$", last):
             v = self.source_const(last)
             if v is not None:
